@@ -124,6 +124,10 @@ class Ctx:
         self.drift = []  # 'file::function' whose normalised AST differs from the committed baseline
         self.uncovered = []  # new statements of changed functions that this run never executed
         self.one_sided = []  # conditions inside new statements that always went the same way
+        self.matchers = {}  # the property module's MATCHERS (set by check.py before run)
+        self._known = None
+        self._unlisted = 0  # failures so far that no known finding accounts for
+        self.crash = None  # traceback when the harness itself raised while driving changed code
         self.search_only = False
         self.boost = 1  # multiplied when the proof/correspondence broke: failing-input search budget
 
@@ -147,9 +151,22 @@ class Ctx:
             self.samples.append(sample)
 
     def fail(self, kind: str, input, what: str, expected=None, actual=None):
-        self.failures.append(
-            {"kind": kind, "input": input, "what": what, "expected": expected, "actual": actual}
-        )
+        rec = {"kind": kind, "input": input, "what": what, "expected": expected, "actual": actual}
+        self.failures.append(rec)
+        # hundreds of failing inputs that no known finding accounts for: the verdict is settled, and on some
+        # changes every further case costs a shrink.  Stop the search (check.py catches Enough).
+        if self._known is None:
+            self._known = load_known(self.prop)
+        for k in self._known:
+            fn = self.matchers.get(k["match"])
+            try:
+                if fn is not None and fn(rec):
+                    return
+            except Exception:
+                pass
+        self._unlisted += 1
+        if self._unlisted >= ENOUGH:
+            raise Enough()
 
     def driver_target(self) -> str:
         return f"drv_{self.prop.lower()}"
@@ -179,7 +196,7 @@ class Ctx:
         table this property depends on un-regenerated, and a table that only other properties use
         cannot break this property's run."""
         cmd = [PY, os.path.join(VERIF, "tools", "extract.py")]
-        rc, out, err = sh(cmd, timeout=900)
+        rc, out, err = sh(cmd, timeout=600)
         try:
             with open(BASELINE) as f:
                 base = json.load(f)
@@ -366,6 +383,14 @@ class Ctx:
 
 
 # ---- known findings ----------------------------------------------------------------------------
+ENOUGH = 400
+
+
+class Enough(BaseException):
+    """raised by Ctx.fail once ENOUGH unlisted failing inputs are recorded (BaseException: the harness modules
+    catch Exception around calls of the real code)"""
+
+
 def load_known(prop_id):
     known = []
     if not os.path.exists(KNOWN):
@@ -431,6 +456,12 @@ def finish(ctx: Ctx, matchers=None, level="proof"):
          "file": u["file"], "function": u["qualname"], "line": u["line"], "source": u["src"]}
         for u in ctx.one_sided[:40]
     ]
+
+    if getattr(ctx, "crash", None):
+        coverage_gaps.append(
+            {"what": "the correspondence / oracle run could not be completed on the changed code: the harness raised "
+                     "while driving it (sources differ from the committed baseline)",
+             "traceback": ctx.crash[-3000:]})
 
     lines = []
     n_replay = 0
